@@ -864,6 +864,61 @@ fn main() {
         ctx.add_states(1);
     });
     drop(all);
+    if thorough {
+        // depth 3, one-sided and generated on the fly: op(e2, leaf), op(leaf, e2) and unary constructors for
+        // every depth-<=2 tree e2 over the reduced leaf set
+        let d2 = gen_exprs(2, true);
+        let l4 = leaves(4, true);
+        let l1 = leaves(1, true);
+        let d4 = d2.get(&4).unwrap();
+        let d1 = d2.get(&1).unwrap();
+        let count = std::sync::atomic::AtomicU64::new(0);
+        par_for(d4.len() as u64, 16, |i| {
+            let e = &d4[i as usize];
+            let mut n = 0u64;
+            let mut go = |t: Expression| {
+                check_expr(ctx, &t);
+                n += 1;
+            };
+            for l in &l4 {
+                for op in ARITH4 {
+                    go(bin(op, e.clone(), l.clone()));
+                    go(bin(op, l.clone(), e.clone()));
+                }
+                for op in CMP {
+                    go(bin(op, e.clone(), l.clone()));
+                    go(bin(op, l.clone(), e.clone()));
+                }
+            }
+            go(un(UnOpType::IntNegate, e.clone()));
+            go(un(UnOpType::Int2Comp, e.clone()));
+            go(cast(CastOpType::IntZExt, 8, e.clone()));
+            go(cast(CastOpType::IntSExt, 8, e.clone()));
+            go(subpiece(0, 2, e.clone()));
+            go(subpiece(1, 1, e.clone()));
+            ctx.add_states(n);
+            count.fetch_add(n, std::sync::atomic::Ordering::Relaxed);
+        });
+        par_for(d1.len() as u64, 16, |i| {
+            let e = &d1[i as usize];
+            let mut n = 0u64;
+            let mut go = |t: Expression| {
+                check_expr(ctx, &t);
+                n += 1;
+            };
+            for l in &l1 {
+                for op in BOOL {
+                    go(bin(op, e.clone(), l.clone()));
+                    go(bin(op, l.clone(), e.clone()));
+                }
+            }
+            go(un(UnOpType::BoolNegate, e.clone()));
+            go(cast(CastOpType::IntZExt, 4, e.clone()));
+            ctx.add_states(n);
+            count.fetch_add(n, std::sync::atomic::Ordering::Relaxed);
+        });
+        ctx.set("layer1_depth3_expressions", json!(count.load(std::sync::atomic::Ordering::Relaxed)));
+    }
 
     // ---- layer 2
     let forms: Vec<usize> = if thorough { (0..N_DEF_FORMS as usize).collect() } else { QUICK_FORMS.to_vec() };
@@ -883,6 +938,28 @@ fn main() {
         check_program(ctx, &label, &p, &states);
         ctx.add_states(1);
     });
+
+    if thorough {
+        let forms4: Vec<usize> = QUICK_FORMS.to_vec();
+        let k4 = forms4.len() as u64;
+        let n4 = k4.pow(4);
+        let total = n4 * N_TERMINATORS * 2;
+        ctx.set("layer2_length4_programs", json!(total));
+        par_for(total, 64, |i| {
+            let mut x = i % n4;
+            let term = (i / n4) % N_TERMINATORS;
+            let reads_temp = (i / n4 / N_TERMINATORS) == 1;
+            let mut seq = Vec::with_capacity(4);
+            for _ in 0..4 {
+                seq.push(forms4[(x % k4) as usize]);
+                x /= k4;
+            }
+            let p = layer2_program(&seq, term, reads_temp);
+            let label = format!("layer2 defs={seq:?} term={term} reads_temp={reads_temp}");
+            check_program(ctx, &label, &p, &states);
+            ctx.add_states(1);
+        });
+    }
 
     // ---- layer 3
     let slots: Vec<usize> = if thorough { (0..N_SLOT_FORMS as usize).collect() } else { QUICK_SLOTS.to_vec() };
@@ -908,8 +985,8 @@ fn main() {
     ctx.set("layer3_programs", json!(total3));
     ctx.set(
         "bounds",
-        json!({"layer1": format!("all typed expression trees of depth <= {depth} over the leaf alphabet ({}), plus hand-shaped deeper templates; every valuation of the value alphabet", if thorough {"full"} else {"reduced"}),
-               "layer2": format!("all def sequences of length <= {max_len} over {k} def forms x {N_TERMINATORS} terminators x 2 observers"),
+        json!({"layer1": format!("all typed expression trees of depth <= {depth} over the leaf alphabet ({}), plus hand-shaped deeper templates{}; every valuation of the value alphabet", if thorough {"full"} else {"reduced"}, if thorough {"; plus depth-3 trees op(e,leaf)/op(leaf,e)/unary(e) for every depth-2 tree e over the reduced leaves"} else {""}),
+               "layer2": format!("all def sequences of length <= {max_len} over {k} def forms x {N_TERMINATORS} terminators x 2 observers{}", if thorough { "; plus all sequences of length 4 over the 20-form quick alphabet" } else { "" }),
                "layer3": format!("{N_SKELETONS} CFG skeletons x all assignments of {ks} slot forms x condition variants x 2 observers"),
                "initial_states": states.len(), "call_environments": 3, "block_fuel": FUEL}),
     );
